@@ -38,6 +38,20 @@ impl AtomicUsize {
         requires self.inv(new),
         ensures r is Ok ==> r == Ok::<usize, usize>(current) && (new == current + 1 ==> self.claimed(current)),
                 r matches Err(x) ==> self.inv(x) { unimplemented!() }
+    // ---- rest of the std surface a changed idiom may reach for (a failed obligation instead of a type error) ----
+    #[verifier::external_body]
+    pub fn compare_exchange(&self, current: usize, new: usize, s: Ordering, f: Ordering) -> (r: Result<usize, usize>)
+        requires self.inv(new),
+        ensures r is Ok ==> r == Ok::<usize, usize>(current) && (new == current + 1 ==> self.claimed(current)),
+                r matches Err(x) ==> self.inv(x) { unimplemented!() }
+    /// unconditional overwrites and decrements are plain stores as far as the protocol is concerned
+    #[verifier::external_body]
+    pub fn swap(&self, v: usize, o: Ordering) -> (p: usize)
+        requires self.inv(v), self.store_allowed(), ensures self.inv(p), self.observed(p), self.stored(v) { unimplemented!() }   //@ID atomicusize_swap.P1 : C02 C15
+    #[verifier::external_body]
+    pub fn fetch_sub(&self, d: usize, o: Ordering) -> (p: usize)
+        requires self.store_allowed(), forall|x: usize| #[trigger] self.inv(x) ==> self.inv(x.wrapping_sub(d)),   //@ID atomicusize_fetch_sub.P1 : C02 C15
+        ensures self.inv(p), self.observed(p) { unimplemented!() }
 }
 
 #[verifier::external_body]
@@ -59,6 +73,22 @@ impl AtomicBool {
     pub fn compare_exchange(&self, current: bool, new: bool, s: Ordering, f: Ordering) -> (r: Result<bool, bool>)
         requires current == false, new == true,
         ensures r is Ok <==> self.elected(), r is Ok ==> r == Ok::<bool, bool>(false) { unimplemented!() }
+    // ---- the rest of std's AtomicBool surface, so that a changed election/flag idiom is a failed obligation and not a
+    // type error: every read-modify-write that can turn the flag back to `false` needs the reset permission, and none
+    // of them is an election (only compare_exchange(false, true) issues `elected()`)
+    #[verifier::external_body]
+    pub fn swap(&self, v: bool, o: Ordering) -> (b: bool) requires v == true || self.may_reset(), ensures v ==> self.ever_true() { unimplemented!() }   //@ID atomicbool_swap.P1 : C14 C04
+    #[verifier::external_body]
+    pub fn fetch_or(&self, v: bool, o: Ordering) -> (b: bool) ensures v ==> self.ever_true() { unimplemented!() }
+    #[verifier::external_body]
+    pub fn fetch_and(&self, v: bool, o: Ordering) -> (b: bool) requires v == true || self.may_reset() { unimplemented!() }   //@ID atomicbool_fetch_and.P1 : C14 C04
+    #[verifier::external_body]
+    pub fn fetch_xor(&self, v: bool, o: Ordering) -> (b: bool) requires v == false || self.may_reset() { unimplemented!() }   //@ID atomicbool_fetch_xor.P1 : C14 C04
+    #[verifier::external_body]
+    pub fn fetch_nand(&self, v: bool, o: Ordering) -> (b: bool) requires self.may_reset() { unimplemented!() }   //@ID atomicbool_fetch_nand.P1 : C14 C04
+    #[verifier::external_body]
+    pub fn compare_exchange_weak(&self, current: bool, new: bool, s: Ordering, f: Ordering) -> (r: Result<bool, bool>)
+        requires new == true || self.may_reset() { unimplemented!() }   //@ID atomicbool_cas_weak.P1 : C14 C04
 }
 
 pub fn max(a: usize, b: usize) -> (r: usize) ensures r == (if a >= b { a } else { b }) { if a >= b { a } else { b } }
